@@ -1,7 +1,7 @@
 """Per-property claim texts for MANIFEST.json."""
 HOOK_COMMITS = []
 KANI_PROPS = []
-BOUNDED_PROPS = ['C05', 'C01', 'C02', 'C03', 'C04', 'C07', 'C08', 'C09', 'C10', 'C12', 'C13', 'C14', 'C15', 'C17', 'C18', 'C19', 'C20']
+BOUNDED_PROPS = ['C05', 'C01', 'C02', 'C03', 'C04', 'C06', 'C07', 'C08', 'C09', 'C10', 'C12', 'C13', 'C14', 'C15', 'C17', 'C18', 'C19', 'C20']
 NOTES = ('Exit status of every check: 0 = all obligations of the property discharged (KNOWN-FINDING lines may be printed), '
          '1 = VIOLATION line, 2 = undecided (lost anchor, Verus front-end error, resource limit, unstable verdict) -- never an alarm. '
          'Claims marked PARTIAL list what is outside the contracts under evidence.coverage.not_covered; checks whose category is "other" are bounded stand-ins only (no discharged obligation). See DESIGN.md.')
@@ -21,8 +21,12 @@ CLAIMS = {
         design_ref='DESIGN.md 5 C11'),
     'C06': dict(
         text='Unbounded proof of the error-iff-malformed postcondition of the real VLQ decoder (foreign byte, cut-off value, 14th digit, empty input) '
-             'and of the mapping loop of decode_regular against a reference mappings decoder that computes indices in mathematical integers.',
-        note=_TB + 'serde_json handing the strings to decode_regular is assumed.',
+             'and of the mapping loop of decode_regular against a reference mappings decoder that computes indices in mathematical integers; decode_regular as a whole (u10) fails exactly when that '
+             'reader refuses the document\'s own mappings / rangeMappings over the document\'s own sources / names (absent keys = empty arrays); on the way out the error is kept: decode_hermes fails '
+             'exactly when the regular part does (u16), decode_common hands on what the decoder of the kind returns, decode_index builds a section WITH a map for every entry that embeds a document, so an '
+             'embedded document that does not decode fails the index (u9), and the entry points return what decode_common returns for the parsed document (u21). '
+             'The bounded stand-in decode_reject puts 9 kinds of malformed segment into regular / Hermes / index documents with keys absent or mismatched and reads them through every entry point.',
+        note=_TB + 'serde_json handing the document to decode_common is assumed.',
         design_ref='DESIGN.md 5 C06'),
 }
 
